@@ -80,7 +80,35 @@ Definition comp_param_bad (t info : Z) : bool :=
   else if t =? COMP_CODE_JPEG then truth (jpeg_param_bad info)
   else false.
 
-(** parse_comp: "<names>:<KEYWORD>[ <digits>]" *)
+(** parse_comp: "<names>:<KEYWORD>[ <digits>]".  [parse_comp_tail] is the part after the ':' *)
+Definition parse_comp_tail (names : list str) (tail : str) : res comp_entry :=
+  if str_eqb tail [] then RErr
+  else
+    let '(word, param) := match split_first ch_space tail with
+                          | Some (w, p) => (w, Some p)
+                          | None => (tail, None)
+                          end in
+    if 9 <? zlen word then RUndef
+    else if str_eqb word kw_SZIP then RErr
+    else match param with
+         | Some p => if negb (forallb is_digit p) then RErr
+                     else if 4 <? zlen p then RUndef
+                     else match find_kw word comp_keywords with
+                          | None => RErr
+                          | Some (code, rule) =>
+                              if (rule =? 2) && (0 <? zlen p) then RErr
+                              else if comp_param_bad code (atoi p) then RErr
+                              else ROk {| ce_names := names; ce_type := code; ce_info := atoi p |}
+                          end
+         | None => match find_kw word comp_keywords with
+                   | None => RErr
+                   | Some (code, rule) =>
+                       if rule =? 1 then RErr
+                       else if comp_param_bad code (-1) then RErr
+                       else ROk {| ce_names := names; ce_type := code; ce_info := -1 |}
+                   end
+         end.
+
 Definition parse_comp (s : str) : res comp_entry :=
   match split_last ch_colon s with
   | None => RErr
@@ -88,33 +116,7 @@ Definition parse_comp (s : str) : res comp_entry :=
       match parse_names objs with
       | RUndef => RUndef
       | RErr => RErr
-      | ROk names =>
-          if str_eqb tail [] then RErr
-          else
-            let '(word, param) := match split_first ch_space tail with
-                                  | Some (w, p) => (w, Some p)
-                                  | None => (tail, None)
-                                  end in
-            if 9 <? zlen word then RUndef
-            else if str_eqb word kw_SZIP then RErr
-            else match param with
-                 | Some p => if negb (forallb is_digit p) then RErr
-                             else if 4 <? zlen p then RUndef
-                             else match find_kw word comp_keywords with
-                                  | None => RErr
-                                  | Some (code, rule) =>
-                                      if (rule =? 2) && (0 <? zlen p) then RErr
-                                      else if comp_param_bad code (atoi p) then RErr
-                                      else ROk {| ce_names := names; ce_type := code; ce_info := atoi p |}
-                                  end
-                 | None => match find_kw word comp_keywords with
-                           | None => RErr
-                           | Some (code, rule) =>
-                               if rule =? 1 then RErr
-                               else if comp_param_bad code (-1) then RErr
-                               else ROk {| ce_names := names; ce_type := code; ce_info := -1 |}
-                           end
-                 end
+      | ROk names => parse_comp_tail names tail
       end
   end.
 
